@@ -1,5 +1,6 @@
 from vcheck import coq_bytes
 from props_common import HARNESS_TB, EXTRACT_TB
+import httpd_static
 
 
 def _parse(line):
@@ -15,7 +16,7 @@ def _parse(line):
     nreq = int(f[p]); p += 1
     reqs = []
     for _ in range(nreq):
-        reqs.append((f[p], f[p + 1], f[p + 2], f[p + 3], f[p + 4:p + 4 + nn])); p += 4 + nn
+        reqs.append((f[p + 1], f[p + 2], f[p + 3], f[p + 4], f[p + 5:p + 5 + nn])); p += 5 + nn
     return routes, reg, names, reqs
 
 
@@ -60,9 +61,10 @@ CFG = dict(
     propfile="Properties/C04.v",
     coq_deps=["Lib/RouteBytes", "Lib/RouteSpec", "Model/Router", "Proofs/RouterP", "Properties/C04", "Check/C04"],
     ocaml="c04",
+    static=[httpd_static.smoke386("C04")],
     casesv=c04_casesv,
     sig=c04_sig,
-    coq_sample={"quick": 20, "thorough": 100},
+    coq_sample={"quick": 15, "thorough": 100},
     rule=("one evaluation = one request served by the real Mux (plus one per table rejected by Handle). Exhaustive, quick tier: (1a) every "
           "one-route table over patterns of <=3 segments from {a,b,:x,:y,*,empty} x {GET,HEAD,POST,DELETE,*} against every path of <=3 "
           "segments over {a,b,c,empty,':x','*'} with leading slash and of <=2 segments without x {GET,HEAD,POST,DELETE,PUT,'',BOGUS}; (1b) "
